@@ -399,6 +399,55 @@ def step_function():
     return _STEP[P]
 
 
+def loop_function():
+    """the whole `while i < len_l:` statement of parser._parse, compiled as a function of its free variables"""
+    import ast, inspect, textwrap
+    from dateutil.parser import _parser as P
+    if ("loop", P) in _STEP:
+        return _STEP[("loop", P)]
+    tree = ast.parse(textwrap.dedent(inspect.getsource(P.parser._parse)))
+    loops = [n for n in ast.walk(tree) if isinstance(n, ast.While)]
+    assert len(loops) == 1
+    fn = ast.parse("def _loop(self, l, i, len_l, info, res, ymd, skipped_idxs, fuzzy, timestr):\n    pass\n").body[0]
+    fn.body = [loops[0], ast.parse("return l, i, res, ymd, skipped_idxs").body[0]]
+    mod = ast.Module(body=[fn], type_ignores=[])
+    ast.fix_missing_locations(mod)
+    ns = dict(P.__dict__)
+    exec(compile(mod, "<while loop of parser._parse>", "exec"), ns)
+    _STEP[("loop", P)] = ns["_loop"]
+    return ns["_loop"]
+
+
+def validate_loop(ctx):
+    from dateutil.parser import _parser as P
+    rng = ctx.subrng("pgen.loop")
+    n = ctx.budget(400, 2500)
+    loop = loop_function()
+    reqs, wants = [], []
+    for info, custom in _infos():
+        iw = _iw(info, custom)
+        p = P.parser(info)
+        for _ in range(n):
+            if rng.random() < 0.7:
+                text = " ".join(rng.choice(STEP_TEXTS) for _ in range(rng.choice([1, 1, 2, 3])))
+                toks = P._timelex.split(text)
+            else:
+                toks, _i = gen_numtok_case(rng, info)
+            if not toks:
+                continue
+            fz = rng.random() < 0.4
+            reqs.append("pgen.loop %s %d %s %s" % (iw, fz, ";".join(L.cps(t) for t in toks), L.classes("".join(toks))))
+            def run():
+                res = P.parser._result()
+                l2, i2, res, ymd, sk = loop(p, list(toks), 0, len(toks), info, res, P._ymd(), [], fz, "text")
+                return "%s ; %s %s %s ; %s ; %s" % (
+                    ";".join(L.cps(t) for t in l2),
+                    " ".join(_oi(x) for x in (res.weekday, res.hour, res.minute, res.second, res.microsecond, res.ampm)),
+                    L.optname(res.tzname), _oi(res.tzoffset), _state(ymd), ",".join(map(str, sk)))
+            wants.append(_r(run, str))
+    _cmp(ctx, "pgen.loop", reqs, wants)
+
+
 STEP_TEXTS = ["10:36:28 BRST", "10:36 GMT+3", "10:36 UTC-3", "10:36 -0300 (BRST)", "10:36 +03:00", "10:36 -3", "10:36 +0300", "10:36 -030",
               "10:36 -03:00 (EST)", "10:36 +0300 (ABCDEF)", "10:36 +0300 , (BRT)", "Sep-25-2003", "Sep/25", "Sep-25", "Jan of 01", "Jan of ab",
               "Jan of 2001", "September of 99", "Sep 25", "10 pm", "10pm", "am 10", "Thu Sep 25 10:36:28 2003", "Thursday", "10 a", "x y z",
@@ -487,3 +536,4 @@ def validate(ctx):
     validate_numtok(ctx)
     validate_step(ctx)
     validate_naive(ctx)
+    validate_loop(ctx)
